@@ -198,9 +198,9 @@ type evidence struct {
 }
 
 func writeEvidence(id string, ev *evidence) {
-	os.MkdirAll(filepath.Join(verifDir, "evidence"), 0o755)
+	os.MkdirAll(filepath.Join(outDir, "evidence"), 0o755)
 	b, _ := json.MarshalIndent(ev, "", " ")
-	os.WriteFile(filepath.Join(verifDir, "evidence", id+".json"), b, 0o644)
+	os.WriteFile(filepath.Join(outDir, "evidence", id+".json"), b, 0o644)
 }
 
 // ---- check ----
@@ -311,13 +311,25 @@ func cmdCheck(args []string) int {
 			patterns = append(patterns, "./"+h.Pkg)
 		}
 	}
+	// translator validation: the repository's own match table goes through the executor first
+	selfRows, selfErr := genSelfTest()
+	if selfErr != nil {
+		return inconclusive("selftest: " + selfErr.Error())
+	}
+	if !pkgSet["match"] {
+		patterns = append(patterns, "./match")
+	}
 	prog, _, err := loadProgram(patterns)
 	if err != nil {
 		return inconclusive("cannot load /repo with harness overlay: " + err.Error())
 	}
+	selfInfo, selfFail := runSelfTest(prog, selfRows, *solver, *workers)
+	if selfFail != "" {
+		return inconclusive(selfFail)
+	}
 
 	// 3. symbolic exploration of every harness
-	cexDir := filepath.Join(verifDir, "cex", id)
+	cexDir := filepath.Join(outDir, "cex", id)
 	os.RemoveAll(cexDir)
 	var total gx.Stats
 	total.Funcs = map[string]int64{}
@@ -514,6 +526,7 @@ func cmdCheck(args []string) int {
 		"unconfirmed_counterexamples": unconfirmed,
 		"reach_witness_unconfirmed":   reachUnconfirmed,
 		"outside_the_claim":           spec.Outside,
+		"translator_selftest":         selfInfo,
 	}
 	ev.Assumptions = append([]string{"z3 4.8.12 answers are correct; go/ssa (x/tools v0.29.0) lowers the source faithfully; the gosym executor implements SSA semantics (validated by replaying solver models natively)"}, spec.Assumptions...)
 	for _, m := range ml {
